@@ -194,4 +194,102 @@ theorem dupTop_top {s : SC} {rest : List SC} : dupTop (s :: rest) = s :: s :: re
 deriving instance DecidableEq for VM
 deriving instance DecidableEq for Except
 
+/-- the invocation stack is within `MaxInvocationStackSize`. -/
+
+def Bounded (v : VM) : Prop := v.istack.length ≤ maxInvocationStackSize
+
+theorem load_bd {v v' : VM} {h160 caller hash : Hash} {f : Flags} (h : v.load h160 caller hash f = .ok v') :
+    Bounded v' := by
+  have := load_ok h
+  unfold Bounded
+  rcases this.2 with ⟨h1, h2⟩ | ⟨p, rest, h1, h2⟩
+  · rw [h2]; simp [maxInvocationStackSize]
+  · rw [h2]; have := this.1; rw [h1] at this; simp at this ⊢; omega
+
+theorem call_bd {v v' : VM} (h : v.call = .ok v') : Bounded v' := by
+  unfold VM.call at h
+  split at h
+  · cases h
+  · rename_i s rest he
+    split at h
+    · cases h
+    · rename_i hl
+      cases h
+      unfold Bounded; rw [he] at hl; simp at hl ⊢; omega
+
+theorem pop_bd {v v' : VM} (hb : Bounded v) (h : v.pop = .ok v') : Bounded v' := by
+  obtain ⟨s, hs⟩ := pop_ok h
+  unfold Bounded at *; rw [hs] at hb; simp at hb; omega
+
+theorem popN_bd : ∀ (n : Nat) {v v' : VM}, Bounded v → v.popN n = .ok v' → Bounded v'
+  | 0, v, v', hb, h => by simp [VM.popN] at h; cases h; exact hb
+  | n+1, v, v', hb, h => by
+    simp only [VM.popN] at h
+    split at h
+    · cases h
+    · rename_i v1 h1; exact popN_bd n (pop_bd hb h1) h
+
+theorem loadNEF_bd {v v' : VM} {h160 caller hash : Hash} {f : Flags} {init : Bool}
+    (h : v.loadNEF h160 caller hash f init = .ok v') : Bounded v' := by
+  unfold VM.loadNEF at h
+  split at h
+  · cases h
+  · rename_i v1 h1
+    split at h
+    · exact call_bd h
+    · cases h; exact load_bd h1
+
+theorem callEx_bd {v v' : VM} {caller target : Hash} {f : Flags} {init : Bool}
+    (h : v.callEx caller target f init = .ok v') : Bounded v' := by
+  unfold VM.callEx at h
+  split at h
+  · cases h
+  · exact loadNEF_bd h
+
+theorem step_bd {v v' : VM} (op : Op) (hb : Bounded v) (h : v.step op = .ok v') : Bounded v' := by
+  cases op with
+  | loadWithFlags h160 f => exact load_bd (v := VM.empty) h
+  | loadScriptWithFlags h160 f => exact load_bd h
+  | loadDynamicScript h160 f => exact load_bd h
+  | loadScriptWithHash h160 hash f => exact load_bd h
+  | loadNEFMethod h160 caller hash f init => exact loadNEF_bd h
+  | call => exact call_bd h
+  | ret => exact pop_bd hb h
+  | unwind n => exact popN_bd n hb h
+  | contractCall target fs safe init =>
+    simp only [VM.step] at h
+    split at h
+    · cases h
+    · split at h
+      · cases h
+      · split at h
+        · cases h
+        · exact callEx_bd h
+  | callT target fs safe init =>
+    simp only [VM.step] at h
+    split at h
+    · cases h
+    · split at h
+      · cases h
+      · exact callEx_bd h
+  | runtimeLoadScript h160 fs =>
+    simp only [VM.step] at h
+    split at h
+    · cases h
+    · split at h
+      · cases h
+      · split at h
+        · cases h
+        · exact load_bd h
+  | nativeCall caller target init => exact callEx_bd h
+  | verifyScript hash => exact load_bd h
+  | verifyContract hash init => exact loadNEF_bd h
+  | invocationScript h160 => exact load_bd h
+
+theorem reach_bounded {P : VM → Op → Prop} {v : VM} (h : Reach P v) : Bounded v := by
+  induction h with
+  | empty => simp [Bounded, VM.empty]
+  | step _ _ hs ih => exact step_bd _ ih hs
+
+
 end NeoModel.Witness
